@@ -2623,6 +2623,19 @@ func (w *World) valueIs(v ssa.Value, pred func(string) bool) bool {
 	var call *ssa.Call
 	idx := 0
 	switch y := stripConv(v).(type) {
+	case *ssa.Parameter:
+		// a parameter of a helper being expanded: the argument it is bound to
+		for i := len(w.inlineEnv) - 1; i >= 0; i-- {
+			if s, ok := w.inlineEnv[i][y]; ok {
+				if av, ok := w.argVal[s]; ok && av != v {
+					if _, isP := stripConv(av).(*ssa.Parameter); !isP {
+						return w.valueIs(av, pred)
+					}
+				}
+				break
+			}
+		}
+		return false
 	case *ssa.Call:
 		call = y
 	case *ssa.Extract:
